@@ -28,8 +28,9 @@ func TestC04(t *testing.T) {
 	r := ev.Start("C04", "exploration")
 	r.Rule("seeded random histories in virtual time biased towards clock advances around the key lifetime, precision and revoke-check boundaries, with long-lived sessions and every cache configuration; per produced record the oracle recomputes from the record, the raw IK row, the metastore insert log and the virtual clock: (1) IK age <= ExpireKeyAfter, (2) no IK row inserted under an SK expired at that time, (3) no record under an IK whose parent SK expired more than one revoke-check interval ago; plus a deterministic state matrix (see matrix counters). Distinct+non-trivial: histories in which at least one key generation expired and was replaced.")
 	r.Assume("policies satisfy ExpireKeyAfter >= 2*CreateDatePrecision (a key whose truncated birth stamp is already older than its lifetime is excluded)", "metastore accepts writes (no faults injected here)")
-	runMany(t, r, ev.Pick(150, 3000), Params{Oracles: OC04, Steps: ev.Pick(120, 400), MaxFacts: 3, ClockBias: 45, RevokeBias: 3, Parts: []string{"p0", "p1", "p2"}, NoCacheFrac: 10, LatencyPct: 6}, 4)
+	runMany(t, r, ev.Pick(150, 3000), Params{Oracles: OC04, Steps: ev.Pick(120, 400), MaxFacts: 3, ClockBias: 45, RevokeBias: 3, Parts: []string{"p0", "p1", "p2"}, NoCacheFrac: 10, LatencyPct: 6, FaultPct: 40}, 4)
 	matrixC04(t, r)
+	rotateThenDecryptOld(t, r)
 	f11C04(t, r)
 	r.Finish(t)
 }
@@ -38,7 +39,7 @@ func TestC05(t *testing.T) {
 	r := ev.Start("C05", "exploration")
 	r.Rule("seeded random histories in virtual time biased towards out-of-band revocations (latest/older IK and SK rows flipped in the raw store) and clock advances around the revoke-check interval, with long-lived sessions and every cache configuration; per produced record the oracle decides from the record, the raw rows, the flip log and the virtual clock whether a key flagged revoked more than the allowed number of intervals ago (1 for the IK, 2 for its parent SK, 0 without caching) is still named although a later creation stamp was creatable; C01's round-trip oracle runs alongside (records under revoked keys stay decryptable). Plus a deterministic matrix of (which key, flip offset, configuration, other process rotated). Distinct+non-trivial: histories with at least one revocation followed by a rotation.")
 	r.Assume("precondition of the property encoded explicitly: a violation is only raised when now.Truncate(precision) is later than the revoked key's stamp; excused cases are counted")
-	runMany(t, r, ev.Pick(150, 3000), Params{Oracles: OC05 | OC01, Steps: ev.Pick(120, 400), MaxFacts: 3, ClockBias: 30, RevokeBias: 25, Parts: []string{"p0", "p1", "p2"}, NoCacheFrac: 10, LatencyPct: 6}, 5)
+	runMany(t, r, ev.Pick(150, 3000), Params{Oracles: OC05 | OC01, Steps: ev.Pick(120, 400), MaxFacts: 3, ClockBias: 30, RevokeBias: 25, Parts: []string{"p0", "p1", "p2"}, NoCacheFrac: 10, LatencyPct: 6, FaultPct: 60}, 5)
 	matrixC05(t, r)
 	r.Finish(t)
 }
